@@ -1,4 +1,4 @@
-package main
+package schemacorr
 
 // Correspondence `schemaValidate`: schema.Validate (gojsonschema over schema/compose-spec.json) vs the Lean
 // `Schema.conforms Gen.composeSchema` (regenerated from the same JSON on every run).  Serves C01 (and C08).
@@ -30,11 +30,11 @@ func init() {
 		},
 		DriverOp: "schemaValidate",
 	})
-	core.RegisterProp("SCHEMA", runSchemaCorr)
+	core.RegisterProp("SCHEMA", Run)
 }
 
 // runSchemaCorr: schema-directed documents (valid stream) and one-position kind mutations (malformed stream).
-func runSchemaCorr(ctx *core.Ctx) {
+func Run(ctx *core.Ctx) {
 	g := core.NewSchemaGen(ctx.RepoDir, ctx.Rng)
 	n := ctx.Pick(1500, 40000)
 	for i := 0; i < n; i++ {
